@@ -8,6 +8,7 @@ Not decided: the numeric value of any statistic.
 import ast
 
 from ..model import walk_shallow, call_name, is_self_attr, dotted_name, parent, ancestors, enclosing_function
+from ..util import canon
 from ..util import (has_call, find_calls, assigned_value, const_str, unparse, kw, arg_or_kw, enclosing_stmt,
                     guards_of, call_tail, control_ancestors, name_bound, bound_names)
 from .. import mutate as M
@@ -39,6 +40,8 @@ def run(ctx):
     r9_degenerate_shortcuts(ctx)
     r10_apply_guards(ctx)
     write_through(ctx, "C11.R11")
+    r12_first_row_missing(ctx)
+    r13_container_capabilities(ctx)
 
 
 def r1_window(ctx):
@@ -222,7 +225,9 @@ def r6_statistic_table(ctx):
     got = {}
     for x in walk_shallow(sc):
         if isinstance(x, ast.If) and isinstance(x.test, ast.Compare) and const_str(x.test.comparators[0]):
-            den = [unparse(a.value) for a in x.body if isinstance(a, ast.Assign) and "values" in unparse(a.value)]
+            # `E if len(values) > 1 else 0` (the domain guard of a partial statistic, judged by C11.R9) counts as E
+            den = [unparse(a.value.body if isinstance(a.value, ast.IfExp) and unparse(a.value.orelse) == "0" and "len(values)" in unparse(a.value.test) else a.value)
+                   for a in x.body if isinstance(a, ast.Assign) and "values" in unparse(a.value)]
             if den:
                 got[const_str(x.test.comparators[0])] = den[0]
     from ..util import alpha
@@ -336,6 +341,16 @@ def r9_degenerate_shortcuts(ctx):
         tg = parent(pc[0]).targets[0] if isinstance(parent(pc[0]), ast.Assign) else None
         ok = isinstance(tg, ast.Tuple) and [unparse(e) for e in tg.elts] == [unparse(rets[0].value.right), unparse(rets[0].value.left)]
     ctx.ob("C11.R9", ST, "iqr", rets[0] if rets else fn, "iqr is percentile 0.75 minus percentile 0.25", bool(ok and okp), stmt="iqr general path")
+    # statistics.stdev is a partial function (needs two values): its error is a ValueError, which Scale's fit reads as "leave the feature alone"
+    sv = ctx.fn(EF, "Scale._scale_value")
+    from ..util import all_guards
+    n_sd = 0
+    for c in [c for c in ast.walk(sv) if isinstance(c, ast.Call) and (call_name(c) or "").split(".")[-1] in ("stdev", "variance")]:
+        n_sd += 1
+        A = unparse(c.args[0]) if c.args else "?"
+        ok_g = any(pol and canon(unparse(t)) in (canon(f"len({A}) > 1"), canon(f"len({A}) >= 2")) for t, pol in all_guards(c, sv))
+        ctx.ob("C11.R9", EF, "Scale._scale_value", c, "the sample deviation is taken of two or more values only (a single fitted value counts as zero deviation: shifted, not scaled)", ok_g)
+    ctx.floor("C11.R9", "sample deviation calls in Scale._scale_value", n_sd, 1)
 
 
 def r10_apply_guards(ctx):
@@ -420,6 +435,72 @@ def _chain(lp):
     return out
 
 
+def r12_first_row_missing(ctx, rule="C11.R12"):
+    """'missing values at any position including the first interaction': the first context may rule a feature out only by a non-numeric VALUE."""
+    ctx.rule(rule, "feature selection from the first context: wherever Scale / Impute (mean, median) pick the features to treat by testing the first context's values with "
+                   "isinstance(v, (int, float)), a missing value (None) is admitted as well -- a None there says nothing about the feature; the fitted values decide, "
+                   "and Scale's fit answers 'do not scale' for a window that holds a non-numeric value")
+    n = 0
+    for qual in ("Scale.filter", "Impute.filter"):
+        fn = ctx.fn(EF, qual)
+        for comp in [x for x in ast.walk(fn) if isinstance(x, (ast.ListComp, ast.SetComp))]:
+            for g in comp.generators:
+                for t in g.ifs:
+                    isi = [c for c in ast.walk(t) if isinstance(c, ast.Call) and call_name(c) == "isinstance" and len(c.args) == 2 and "int" in unparse(c.args[1]) and "float" in unparse(c.args[1])]
+                    if not isi or "first" not in unparse(g.iter):
+                        continue
+                    V = unparse(isi[0].args[0])
+                    n += 1
+                    core = t.operand if isinstance(t, ast.UnaryOp) and isinstance(t.op, ast.Not) else t
+                    ok = isinstance(core, ast.BoolOp) and isinstance(core.op, ast.Or) and any(canon(unparse(v)) == canon(f"{V} is None") for v in core.values) \
+                        and any(v is isi[0] for v in core.values)
+                    ctx.ob(rule, EF, qual, comp, "the numeric-feature test on the first context admits a missing value", ok, detail={"test": unparse(t)})
+    ctx.floor(rule, "first-context type tests in Scale/Impute", n, 4)
+    fit = ctx.fn(EF, "Scale._get_shift_and_scale")
+    guards = [st for st in ast.walk(fit) if isinstance(st, ast.If) and any(isinstance(r, ast.Return) and isinstance(r.value, ast.Constant) and r.value.value is None for r in st.body)
+              and "isinstance" in unparse(st.test) and "all(" in unparse(st.test)]
+    ctx.ob(rule, EF, "Scale._get_shift_and_scale", guards[0] if guards else fit, "a fitting window holding a non-numeric value makes the fit answer None (feature left alone) before any statistic is taken",
+           bool(guards), stmt="numeric window guard")
+
+
+def r13_container_capabilities(ctx, rule="C11.R13"):
+    """'behave identically for dense, sparse and scalar contexts': the context containers coba itself produces (list, tuple, dict, SparseDense, lazy rows)
+    differ in what they support; an operation only some of them have is applied under a test of the very value it is applied to."""
+    from ..util import all_guards
+    ctx.rule(rule, "container capabilities: Mutable calls .copy() on a context only under an isinstance test of that same context (not of the first interaction's), and Impute "
+                   "grows a dense context in place (`+=`) only after making sure it is a list (SparseDense has item assignment but cannot grow)")
+    n = 0
+    fn = ctx.fn(EF, "Mutable.filter")
+    for c in [c for c in ast.walk(fn) if isinstance(c, ast.Call) and isinstance(c.func, ast.Attribute) and c.func.attr == "copy" and not c.args]:
+        recv = c.func.value
+        is_ctx = (isinstance(recv, ast.Subscript) and const_str(recv.slice) == "context") or (isinstance(recv, ast.Name) and any(
+            isinstance(v, ast.Subscript) and const_str(v.slice) == "context" for v in assigned_value(fn, recv.id)))
+        if not is_ctx:
+            continue
+        n += 1
+        R = unparse(recv)
+        ok = any(pol and any(isinstance(y, ast.Call) and call_name(y) == "isinstance" and y.args and unparse(y.args[0]) == R for y in ast.walk(t)) for t, pol in all_guards(c, fn))
+        ctx.ob(rule, EF, "Mutable.filter", c, "the context is copied with .copy() only when THIS context is one of the containers that have it", ok)
+    fn = ctx.fn(EF, "Impute.filter")
+    for st in [x for x in ast.walk(fn) if isinstance(x, ast.AugAssign) and isinstance(x.op, ast.Add) and isinstance(x.target, ast.Name)]:
+        X = st.target.id
+        if not any(isinstance(v, ast.Subscript) and const_str(v.slice) == "context" for v in assigned_value(fn, X)):
+            continue
+        n += 1
+        from ..model import parent
+        body = None
+        p_ = parent(st)
+        for field in ("body", "orelse"):
+            if st in (getattr(p_, field, None) or []):
+                body = getattr(p_, field)
+        before = body[:body.index(st)] if body else []
+        norm = any(isinstance(b, ast.If) and canon(unparse(b.test)) == canon(f"not isinstance({X}, list)") and any(
+            isinstance(a, ast.Assign) and any(isinstance(t, ast.Name) and t.id == X for t in a.targets) and unparse(a.value) == f"list({X})" for a in b.body) for b in before)
+        guarded = any(pol and canon(unparse(t)) == canon(f"isinstance({X}, list)") for t, pol in all_guards(st, fn))
+        ctx.ob(rule, EF, "Impute.filter", st, "the dense context is grown in place only once it is known to be a list", norm or guarded)
+    ctx.floor(rule, "capability-dependent container operations in Mutable/Impute", n, 2)
+
+
 def write_through(ctx, rule):
     """Mutable dense views over sparse storage (SparseDense: what Densify hands to Scale/Impute and to the learners' encoders):
     a write is stored for every value, and nothing the read methods derive from the storage survives a write."""
@@ -475,6 +556,9 @@ def write_through(ctx, rule):
 
 
 CONTROLS = [
+    ("stdev of a single value", EF, M.replace_expr("Scale._scale_value", "stdev(values) if len(values) > 1 else 0", "stdev(values)"), "C11.R9"),
+    ("Impute grows whatever dense container it is given", EF, M.delete_stmt("Impute.filter", M.text_has("if not isinstance(context, list)")), "C11.R13"),
+    ("Scale takes a missing first value for a non-numeric feature", EF, M.replace_expr("Scale.filter", "isinstance(v, (int, float)) or v is None", "isinstance(v, (int, float))", nth=0), "C11.R12"),
     ("SparseDense keeps zeros implicit", "coba/pipes/rows.py", M.replace_stmt("SparseDense.__setitem__", M.text_has("self._values[key] = value"), "if value != 0: self._values[key] = value"), "C11.R11"),
     ("dense apply does not skip None", EF, M.replace_stmt("Scale.filter", M.text_has("if context[i] is not None: context[i] = (context[i] + shift) * scale"), "context[i] = (context[i] + shift) * scale"), "C11.R10"),
     ("sparse impute without statistic guard", EF, M.replace_expr("Impute.filter", "v is None and k in imputations", "v is None", nth=1), "C11.R10"),
